@@ -89,6 +89,18 @@ class Scenario:
         self.old_iface, self.expect_gen_err = old_iface, expect_gen_err
 
 
+def flag_on(flags, name):
+    """the value a boolean flag has after Go's flag package parsed it: bare or =true forms are true,
+    explicit =false forms (and absence) are false"""
+    on = False
+    for f in flags:
+        if f == name:
+            on = True
+        elif f.startswith(name + "="):
+            on = f.split("=", 1)[1] in ("1", "t", "T", "true", "TRUE", "True")
+    return on
+
+
 def scenarios():
     S = []
     outs = ["store_moq.go", "a_moq.go", "zz/deep/store_moq.go"]
@@ -127,6 +139,11 @@ def scenarios():
                            ("fmtgofmt", ["-fmt", "gofmt"]), ("all", ["-stub", "-skip-ensure", "-with-resets"])):
                 S.append(Scenario("flag-" + nm, out="store_moq.go", flags=fl))
                 S.append(Scenario("flag-" + nm + "-stdout", out=None, flags=fl, args=("Store", "Lister:L2")))
+        if not rm:
+            # boolean flags with explicit values
+            for nm, fl in (("resets-false", ["-with-resets=false"]), ("stub-false-resets-true", ["-stub=false", "-with-resets=true"]),
+                           ("skip-0-stub-1", ["-skip-ensure=0", "-stub=1"]), ("all-false", ["-stub=false", "-skip-ensure=F", "-with-resets=0"])):
+                S.append(Scenario("flagval-" + nm + "-stdout", out=None, flags=fl, args=("Store", "Lister:L2")))
         S.append(Scenario("parentisfile" + ("-rm" if rm else ""), out="blocker/x_moq.go", rm=rm, pkg="blocker",
                           fault="parent-is-file"))
         S.append(Scenario("syntaxerr" + ("-rm" if rm else ""), out="store_moq.go", rm=rm, prior="own",
@@ -142,6 +159,13 @@ def scenarios():
             # (without -skip-ensure the self-check line is the known finding explicit_same_pkg, D15)
             S.append(Scenario("samename-skip", out="../alt/store/store_moq.go", pkg="store", fault="same-name-dest",
                               flags=("-skip-ensure",)))
+        # -out as an absolute path, over garbage and over moq's own output
+        S.append(Scenario("absout-garbage" + ("-rm" if rm else ""), out="store_moq.go", rm=rm, prior="garbage", fault="abs-out"))
+        S.append(Scenario("absout-own" + ("-rm" if rm else ""), out="store_moq.go", rm=rm, prior="own", fault="abs-out"))
+        # started from the module root, with -pkg and a relative -out next to the source package
+        S.append(Scenario("fromroot" + ("-rm" if rm else ""), out="mocks/store_moq.go", rm=rm, pkg="mocks",
+                          fault="from-root"))
+        S.append(Scenario("fromroot-inplace" + ("-rm" if rm else ""), out="store_moq.go", rm=rm, fault="from-root"))
         S.append(Scenario("gomodsync" + ("-rm" if rm else ""), out="../outside/store_moq.go", rm=rm, pkg="outside",
                           fault="gomod-out-of-sync", expect_gen_err=True))
     return S
@@ -238,7 +262,17 @@ def run_one(tools, base, sc, ref_cache):
             f.write("package store\nfunc {\n")
     before = snapshot(root)
     args = (["-out", sc.out] if sc.out else []) + (["-rm"] if sc.rm else []) + base_flags + ["."] + sc.args
-    rc, so, se = moq(args, env=run_env)
+    if sc.fault == "abs-out":
+        # -out given as an absolute path into the source package
+        args = ["-out", outabs] + (["-rm"] if sc.rm else []) + base_flags + ["."] + sc.args
+        rc, so, se = moq(args, env=run_env)
+    elif sc.fault == "from-root":
+        # the same run started from the module root: source directory and -out are relative to THAT directory
+        args = (["-out", os.path.normpath(os.path.join("store", sc.out))] + (["-rm"] if sc.rm else []) + base_flags
+                + ["store"] + sc.args)
+        rc, so, se = moq(args, cwd=root, env=run_env)
+    else:
+        rc, so, se = moq(args, env=run_env)
     after = snapshot(root)
     out_after = None
     if outabs and os.path.isfile(outabs):
@@ -413,8 +447,9 @@ def run(tools, seed, tier):
                 fmtv = fl[fl.index("-fmt") + 1] if "-fmt" in fl else ""
                 pkgv = fl[fl.index("-pkg") + 1] if "-pkg" in fl else ""
                 seen[key] = "lib%d" % len(libcases)
-                libcases.append(dict(id=seen[key], dir=libdir, pkg=pkgv, stub="-stub" in fl, skip="-skip-ensure" in fl,
-                                     resets="-with-resets" in fl, args=o["args"], formatter=fmtv))
+                libcases.append(dict(id=seen[key], dir=libdir, pkg=pkgv, stub=flag_on(fl, "-stub"),
+                                     skip=flag_on(fl, "-skip-ensure"), resets=flag_on(fl, "-with-resets"),
+                                     args=o["args"], formatter=fmtv))
             lib = {}
             if libcases:
                 from . import l2 as L2
